@@ -14,6 +14,19 @@ pub struct Family {
     pub items: Vec<Item>,
 }
 
+impl Family {
+    /// bound on the sequence length per tier
+    pub fn maxlen(&self, thorough: bool) -> u32 {
+        match (self.name, thorough) {
+            ("assert-2-sizes", true) => 5,
+            ("frozen-constant-body", false) => 4,
+            ("frozen-constant-body", true) => 5,
+            (_, false) => 3,
+            (_, true) => 4,
+        }
+    }
+}
+
 fn common_items() -> Vec<Item> {
     vec![
         Item::Instr("jmp A".into()),
@@ -73,6 +86,28 @@ pub fn families() -> Vec<Family> {
                 Item::Instr("nop".into()),
                 Item::Instr("st A".into()),
             ],
+        },
+        Family {
+            // a constant-bodied short form (`far`) behind a cascading instruction (`jb`): the value the assert
+            // sees in the first pass is not the final one
+            name: "frozen-constant-body",
+            rules: vec![RuleSrc::new("jb {a}", "{ assert(a < 5), 0xa @ a`4 }"), RuleSrc::new("jb {a}", "0xb0 @ a`8"), RuleSrc::new("far {t}", "{ assert(t < 2), 0xaa }"), RuleSrc::new("far {t}", "0xbbbb"), RuleSrc::new("nop", "0x00")],
+            items: vec![
+                Item::Instr("jb B".into()),
+                Item::Instr("jb A".into()),
+                Item::Instr("far A".into()),
+                Item::Instr("far B".into()),
+                Item::Label("A".into()),
+                Item::Label("B".into()),
+                Item::Data(Some(8), vec!["0".into()]),
+                Item::Instr("nop".into()),
+            ],
+        },
+        Family {
+            // the short form's body is a constant: only the assert looks at the operand
+            name: "assert-constant-body",
+            rules: with(vec![RuleSrc::new("jmp {a}", "{ assert(a < 4), 0xaa }"), RuleSrc::new("jmp {a}", "0xbbbb")]),
+            items: common_items(),
         },
         Family {
             // short form only when the target is FAR: programs that oscillate or have no fixed point
@@ -263,18 +298,15 @@ pub fn quick_budgets() -> Vec<usize> {
 pub fn run(ctx: &Ctx) -> Report {
     let mut rep = Report::new(
         "model_checking",
-        "seven rule families with value-dependent encodings (assert cascades with 2 and 3 sizes, typed-width cascade, pc-relative, far-is-short with no/oscillating fixed points, tie next to a cascade) x all item sequences up to a length over 15 items x iteration budgets x the 4 optimisation-switch combinations, plus the skeleton grid (forward chains of length 0..12, with and without an oscillator) x budgets 1..30 x 4; every claimed success is re-derived from its own final symbol values and instruction sizes (certificate). Non-trivial = program that needed >= 2 passes under some configuration; distinct by program text. states = distinct (program, passes, bits) final states certified, transitions = passes executed.",
+        "nine rule families with value-dependent encodings (assert cascades with 2 and 3 sizes, typed-width cascade, pc-relative, far-is-short with no/oscillating fixed points, tie next to a cascade) x all item sequences up to a length over 15 items x iteration budgets x the 4 optimisation-switch combinations, plus the skeleton grid (forward chains of length 0..12, with and without an oscillator) x budgets 1..30 x 4; every claimed success is re-derived from its own final symbol values and instruction sizes (certificate). Non-trivial = program that needed >= 2 passes under some configuration; distinct by program text. states = distinct (program, passes, bits) final states certified, transitions = passes executed.",
     );
     let fams = families();
     let budgets: Vec<usize> = if ctx.thorough { (1..=30).collect() } else { quick_budgets() };
     let mut levels = vec![];
     for (fi, f) in fams.iter().enumerate() {
         let k = f.items.len() as u64;
-        let maxlen: u32 = match (fi, ctx.thorough) {
-            (_, false) => 3,
-            (0, true) => 5,
-            (_, true) => 4,
-        };
+        let _ = fi;
+        let maxlen: u32 = f.maxlen(ctx.thorough);
         let n = seq_count(k, maxlen);
         let b = &budgets;
         rep.absorb(par_run(n, |i, l| {
